@@ -54,9 +54,20 @@ func createPlugin(req *pluginpb.CodeGeneratorRequest) *protogen.Plugin {
 	opts := protogen.Options{}
 	plugin, err := opts.New(req)
 	if err != nil {
-		panic(err)
+		fail(err)
 	}
 	return plugin
+}
+
+// fail reports err to protoc as the plugin's error message instead of crashing with a panic.
+func fail(err error) {
+	resp := &pluginpb.CodeGeneratorResponse{Error: proto.String(err.Error())}
+	if out, marshalErr := proto.Marshal(resp); marshalErr == nil {
+		_, _ = os.Stdout.Write(out)
+		os.Exit(0)
+	}
+	fmt.Fprintf(os.Stderr, "protoc-gen-openapiv3: %v\n", err)
+	os.Exit(1)
 }
 
 func generateOpenAPIFiles(plugin *protogen.Plugin, format openapiv3.OutputFormat) {
@@ -93,7 +104,7 @@ func createServiceGenerator(
 func renderService(generator *openapiv3.Generator) []byte {
 	output, renderErr := generator.Render()
 	if renderErr != nil {
-		panic(renderErr)
+		fail(renderErr)
 	}
 	return output
 }
